@@ -150,10 +150,16 @@ fn implements(req: Tr, f: &FTy, params: &[String], sigma: &[(String, &'static st
     }
 }
 
+/// an enum that educes Copy and Clone and has a `Clone(method = ..)` field: its Clone impl clones field by field (the
+/// fields without a method must be Clone) and its Copy impl has predicates of its own (every field Copy)
+fn enum_clone_by_field_next_to_copy(s: &TypeSpec) -> bool {
+    s.kind == Kind::Enum && s.has(Tr::Copy) && s.has(Tr::Clone) && s.all_fields().any(|f| f.method(Tr::Clone).is_some())
+}
+
 /// the trait the automatic mode requires of delegated field types for educed trait `x`
 fn required(s: &TypeSpec, x: Tr) -> Tr {
     match x {
-        Tr::Clone if s.has(Tr::Copy) => Tr::Copy,
+        Tr::Clone if s.has(Tr::Copy) && !enum_clone_by_field_next_to_copy(s) => Tr::Copy,
         Tr::Eq => Tr::PartialEq,
         Tr::PartialOrd if s.has(Tr::Ord) => Tr::Ord,
         t => t,
@@ -166,7 +172,7 @@ fn delegated<'a>(s: &'a TypeSpec, x: Tr, target: Option<&str>) -> Vec<&'a FieldS
     // companions share the primary's where-clause
     let primary = match x {
         Tr::Eq if s.has(Tr::PartialEq) => Tr::PartialEq,
-        Tr::Copy if s.has(Tr::Clone) => Tr::Clone,
+        Tr::Copy if s.has(Tr::Clone) && !(enum_clone_by_field_next_to_copy(s) && governing(s, Tr::Clone, None).map(|a| a.bound().is_none() || matches!(a.bound(), Some(BoundV::True))).unwrap_or(true)) => Tr::Clone,
         Tr::PartialOrd if s.has(Tr::Ord) => Tr::Ord,
         t => t,
     };
@@ -179,6 +185,8 @@ fn delegated<'a>(s: &'a TypeSpec, x: Tr, target: Option<&str>) -> Vec<&'a FieldS
                 Tr::Clone if s.kind == Kind::Union => true,
                 Tr::Default if s.kind == Kind::Union => (v.fields.len() == 1 || f.attrs.iter().any(|a| a.tr == Tr::Default)) && f.default_expect.is_none(),
                 Tr::Copy | Tr::Eq => true,
+                // a type-level expression builds the value: nothing is delegated
+                Tr::Default if s.attr(Tr::Default).and_then(|a| a.expr()).is_some() => false,
                 Tr::Default => {
                     let is_default_variant = s.kind != Kind::Enum || s.variants.len() == 1 || v.attrs.iter().any(|a| a.tr == Tr::Default);
                     is_default_variant && f.default_expect.is_none()
@@ -312,6 +320,34 @@ pub fn prepare_with(dna: &[u16], explicit_bounds: bool) -> Option<Case> {
             self_field = true;
         }
     }
+    // Default from a type-level expression on a generic enum: no field is defaulted, so no parameter may be constrained
+    let mut type_expr_generic = false;
+    if s.kind == Kind::Enum && s.has(Tr::Default) && !s.gens.types.is_empty() && s.attr(Tr::Default).map(|a| a.expr().is_none() && a.bound().is_none()).unwrap_or(false) {
+        let tparams: Vec<String> = s.gens.types.iter().map(|t| t.name.clone()).collect();
+        let cparams: Vec<String> = s.gens.consts.iter().map(|t| t.name.clone()).collect();
+        // a variant that can be written down without a value of a parameter's type (its fields mention none), in the
+        // expression syntax the shipping build parses
+        let writable = |v: &VariantSpec| {
+            v.fields.iter().all(|f| !f.ty.params.iter().any(|p| tparams.contains(p) || cparams.contains(p)) && syn::parse_str::<syn::Expr>(&f.ty.vals[0]).is_ok())
+        };
+        if let Some(vi) = s.variants.iter().position(|v| writable(v)) {
+            if d.chance(60) {
+                let e = s.value_expr(vi, &vec![0; s.variants[vi].fields.len()]);
+                let sp = d.byte();
+                if let Some(a) = s.traits.iter_mut().find(|a| a.tr == Tr::Default) {
+                    a.params.push((TParam::Expr(e), sp));
+                }
+                for v in s.variants.iter_mut() {
+                    v.attrs.retain(|a| a.tr != Tr::Default);
+                    for f in v.fields.iter_mut() {
+                        f.attrs.retain(|a| a.tr != Tr::Default);
+                        f.default_expect = None;
+                    }
+                }
+                type_expr_generic = true;
+            }
+        }
+    }
     let known = check::load_known();
     if crate::known::pre_matches(&known, "C01", &s) {
         return None;
@@ -415,6 +451,9 @@ pub fn prepare_with(dna: &[u16], explicit_bounds: bool) -> Option<Case> {
     }
     if self_field {
         classes.push("field_type_mentions_Self".into());
+    }
+    if type_expr_generic {
+        classes.push("type_level_default_expression_on_a_generic_enum".into());
     }
     let explicit = s.traits.iter().any(|a| matches!(a.bound(), Some(BoundV::All) | Some(BoundV::Custom(_)) | Some(BoundV::False)));
     if explicit_bounds && !explicit {
